@@ -155,6 +155,9 @@ def build_cfg(s, check=True):
         if aid not in alts:
             alts[aid] = Alternative([Variable(n) if k == 'v' else Terminal(n) for k, n in rhs])
         R.append(Rule(Variable(lhs), alts[aid]))
+    if s.get('eps'):
+        return CFG(set(Variable(v) for v in s['V']), set(Terminal(a) for a in s['Sigma']), R, Variable(s['S']),
+                   epsilon=Terminal(s['eps']), check_validity=check)
     return CFG(set(Variable(v) for v in s['V']), set(Terminal(a) for a in s['Sigma']), R, Variable(s['S']),
                check_validity=check)
 
